@@ -11,6 +11,7 @@ theorem depthGS_pos (st : Stmt) : 1 ≤ Frag.depthGS st := by
     cases e <;> try (simp [Frag.depthGS]; done)
     case ifE isp ty c t el => cases el <;> simp [Frag.depthGS]
     case assign asp op l r => cases l <;> simp [Frag.depthGS]
+    case call csp cty base args sw => cases base <;> simp [Frag.depthGS]
     case matchE msp ty c arms dflt =>
       cases dflt with
       | none => simp [Frag.depthGS]
@@ -121,6 +122,10 @@ theorem cgS_scopes_tail (mod fn : String) (φ : String → Option String) : ∀ 
             rw [ihB loops t _ (by omega)]
         case call csp cty base args sw =>
           cases base <;> try rfl
+          case member msp mty b nm mop =>
+            cases mop <;> cases args <;> try rfl
+            rename_i a rest
+            cases rest <;> cases sw <;> rfl
           rename_i isp ity name g f si
           simp only [cgS]
           split
@@ -222,7 +227,7 @@ theorem cgS_vm_mono (mod fn : String) (φ : String → Option String) : ∀ (n :
       case letS sp name vty nc oty e =>
         cases nc
         · simp only [cgS]
-          have := cnt_freshVar mod { env with lm := (cgE mod (ρS env.scopes) φ e env.lm).2 } name k
+          have := cnt_freshVar mod { env with lm := (cgL mod (ρS env.scopes) φ e env.lm).2 } name k
           simp only at this
           rw [this]
           split <;> (try subst_vars) <;> omega
@@ -250,6 +255,10 @@ theorem cgS_vm_mono (mod fn : String) (φ : String → Option String) : ∀ (n :
             exact h1
         case call csp cty base args sw =>
           cases base <;> try exact Nat.le_refl _
+          case member msp mty b nm mop =>
+            cases mop <;> cases args <;> try exact Nat.le_refl _
+            rename_i a rest
+            cases rest <;> cases sw <;> exact Nat.le_refl _
           rename_i isp ity name g f si
           simp only [cgS]
           split
